@@ -74,12 +74,12 @@ def run_decode(ctx, desc):
 class DriveRig:
     """BaseNode402 on a master network <-> reference drive reachable by SDO and PDO."""
 
-    def __init__(self, transport, drive, ticked=False):
+    def __init__(self, transport, drive, ticked=False, event_timer=None, zero_ts=False):
         from canopen.profiles.p402 import BaseNode402
         self.drive = drive
         self.transport = transport
         self.bus = simbus.SimBus(mode="threaded" if ticked else "inline", max_delay=0.0002)
-        self.net, self.st = simbus.make_network(self.bus, "master")
+        self.net, self.st = simbus.make_network(self.bus, "master", zero_ts=zero_ts)
         self.node = BaseNode402(NODE, od402())
         self.net.add_node(self.node)
         self.node.sdo.RESPONSE_TIMEOUT = 5.0 if ticked else 0.2
@@ -122,6 +122,7 @@ class DriveRig:
                     m.add_variable(i)
                 m.cob_id, m.enabled = cob, True
                 m.trans_type = 1 if ticked and m is n.tpdo[1] else 255
+                m.event_timer = event_timer          # (an event-driven PDO may have a deadline / event timer configured: still event-driven)
             n.setup_402_state_machine(read_pdos=False)
             drive.on_change = self.send_tpdo
         self._stop = threading.Event()
@@ -202,7 +203,9 @@ def run_transitions(ctx, desc):
                 dont_care = rng.choice([0, 0x20])
                 drive = D.Drive402(state=start, auto_delay=delay, extra=extra)
                 drive.dont_care = dont_care
-                rig = DriveRig(transport, drive, ticked)
+                evt = rng.choice([None, 0, 100, 65535])
+                zero_ts = ticked and rng.random() < 0.5
+                rig = DriveRig(transport, drive, ticked, event_timer=evt, zero_ts=zero_ts)
                 if transport.startswith("pdo"):
                     rig.send_tpdo()                       # the master knows the current statusword
                     if ticked:
@@ -216,7 +219,7 @@ def run_transitions(ctx, desc):
                             rig.close()
                             continue
                 case = {"workload": "transitions", "transport": transport, "start": start, "target": target, "auto_delay": delay,
-                        "extra_bits": extra, "dont_care": dont_care}
+                        "extra_bits": extra, "dont_care": dont_care, "pdo_event_timer": evt, "frames_stamped_zero": zero_ts}
                 ctx.case(("transition", start, target, delay, transport), nontrivial=start != target)
                 ctx.count("transition_cases")
                 exc = None
@@ -307,7 +310,7 @@ def run_histories(ctx, desc):
     for h in range(desc["count"]):
         drive = D.Drive402(state=rng.choice([D.SOD, D.NRTSO, D.FAULT, D.OE]), auto_delay=rng.choice([0, 0, 1, 2]),
                            extra=rng.getrandbits(16) & D.EXTRA_BITS)
-        rig = DriveRig(transport, drive)
+        rig = DriveRig(transport, drive, event_timer=rng.choice([None, 0, 100]))
         if transport.startswith("pdo"):
             rig.send_tpdo()
         ops = []
